@@ -1470,6 +1470,21 @@ impl<Front: SocketHandler, L: ListenerHandler> SessionState for Pipe<Front, L> {
         if let Some(backend) = self.backend.as_mut() {
             let mut backend = backend.borrow_mut();
             backend.active_requests = backend.active_requests.saturating_sub(1);
+            // A websocket pipe inherits the mux's backend connection together
+            // with its accounting (`Router::connect` counted it): give it back
+            // here, the mux's own close path no longer sees this connection.
+            // TCP sessions account for their backend in `tcp.rs`.
+            if matches!(self.protocol, Protocol::HTTP | Protocol::HTTPS) {
+                backend.dec_connections();
+                gauge_add!(names::backend::CONNECTIONS, -1);
+                gauge_add!(names::backend::POOL_SIZE, -1);
+                gauge_add!(
+                    names::backend::CONNECTIONS_PER_BACKEND,
+                    -1,
+                    self.cluster_id.as_deref(),
+                    Some(&backend.backend_id)
+                );
+            }
         }
     }
 
